@@ -414,8 +414,12 @@ impl PartitionStorage for FilePartitionStorage {
                 .await
                 .with_error_context(|error| {
                     format!("{COMPONENT} (error: {error}) - failed to read consumer offset from file, path: {path}")
-                })
-                .map_err(|_| IggyError::CannotReadFile)?;
+                });
+            let Ok(offset) = offset else {
+                // A partially written offset file (unclean stop) is ignored, never served.
+                warn!("Ignoring incomplete consumer offset file: {path}.");
+                continue;
+            };
 
             consumer_offsets.push(ConsumerOffset {
                 kind,
